@@ -593,6 +593,70 @@ def rule_l7(F):
     return r
 
 
+def rule_l8(F):
+    """Copying an aggregate copies every component: the generators of clone bodies walk the fields with a LayoutBuilder, and once the
+    offset of a component has been computed (`builder.add`) the only way to the next component is through the per-component copy
+    (`call_clone_of`, directly or in a helper that reaches it).  A path that computes an offset and moves on without it (gathering
+    plain fields for one big memcpy, skipping fields 'that need no clone') leaves bytes of the copy uninitialised as soon as the
+    hand-made size differs from what the walk would have copied (padding between two gathered fields)."""
+    from ..callgraph import CallGraph
+    r = RuleResult("C02.L8", "clone bodies: between computing a component's offset and moving to the next component, the component is handed to the per-component copy", floor=2)
+    bodies = [b for b in F.bodies_in(["src/lir/lower/clones.rs"]) if b.mir and "{closure" not in b.path]
+    base = [b.path for b in bodies if hir.last(b.path) == "call_clone_of"]
+    if not base:
+        r.missing("call_clone_of in src/lir/lower/clones.rs")
+        return r
+    # crate functions from which the per-component copy is reached on every call are treated as the copy itself: here simply
+    # 'can reach' within the clone module (helpers extracted from the walkers)
+    cg = CallGraph(F)
+    copiers = set(base)
+    for b in bodies:
+        if b.path in copiers:
+            continue
+        reach, _ = cg.reachable([b.path])
+        if any(x in reach for x in base) and not any(hir.last(mir.callee_def(t) or "") == "add" and "LayoutBuilder" in (mir.callee(t) or "") for _, t in mir.calls(b)):
+            copiers.add(b.path)
+    for b in bodies:
+        adds = [(bi, t) for bi, t in mir.calls(b) if hir.last(mir.callee_def(t) or "") == "add" and "LayoutBuilder" in (mir.callee(t) or "")]
+        if not adds:
+            continue
+        merged = {}
+        for h, nodes in mir.natural_loops(b):
+            merged.setdefault(h, set()).update(nodes)
+        for bi, t in adds:
+            inner = [(h, nodes) for h, nodes in merged.items() if bi in nodes]
+            if not inner:
+                continue   # the seed of a walk (tag byte) outside the loop
+            h, nodes = min(inner, key=lambda x: len(x[1]))
+            copy_blocks = {x for x, tt in mir.calls(b) if x in nodes and ((mir.callee(tt) or "") in copiers or (mir.callee_def(tt) or "") in copiers)}
+            if not copy_blocks:
+                continue   # a walk that only computes offsets (layout_of, field access): not a copier loop
+            dest = (t.get("dest") or [None])[0]
+            if dest is None or not any(dest in mir.rv_locals(st["rv"]) for blk in b.blocks for st in blk["stmts"] if st["k"] == "assign") and \
+                    not any(mir.op_local(a) == dest or (mir.is_place_op(a) and a[1] and a[1][0] == dest) for _, tt in mir.calls(b) for a in tt.get("args") or []):
+                continue   # an `add` whose offset is not used (the tag byte that seeds a variant walk) places no component
+            r.inst("%s: add at line %s" % (hir.last(b.path), t.get("line")), {"fn": b.path, "copy_calls_in_loop": len(copy_blocks)})
+            start = t.get("t")
+            if start is None:
+                continue
+            seen = mir.reachable_from(b, start, stop=copy_blocks | {h})
+            # leaving towards the next component (loop header) or out of the loop into code that returns, without the copy
+            bypass = h in seen and start not in copy_blocks
+            if not bypass:
+                for x in seen:
+                    if x in copy_blocks or x == h:
+                        continue
+                    for y in mir.succs(b.blocks[x]):
+                        if y not in nodes and any(b.blocks[z]["term"]["k"] == "return" for z in mir.reachable_from(b, y)):
+                            bypass = True
+            if bypass:
+                r.bad(b.path, "component offset computed but component not copied", relfile(b.file), t.get("line") or b.line,
+                      "%s computes the offset of a component (LayoutBuilder::add) and can move on to the next component without handing this one to call_clone_of: "
+                      "whatever copies it instead (a gathered memcpy, nothing at all) is not the walk the layout was computed with - e.g. `{ a: u8, b: u32, s: String }` "
+                      "copied with a hand-summed size loses the tail of `b`" % hir.last(b.path))
+    return r
+
+
 def rules(ctx):
     F = ctx["F"]
-    return [rule_l1(F), rule_l2(F), rule_l3(F), rule_l4(F), rule_l5(F), rule_l6(F), rule_l7(F)]
+    return [rule_l1(F), rule_l2(F), rule_l3(F), rule_l4(F), rule_l5(F), rule_l6(F), rule_l7(F), rule_l8(F)]
